@@ -97,6 +97,9 @@ class Registry:
     def load(self, path):
         from .frontend import parse_contracts
         c, k, g = parse_contracts(path)
+        dup = set(c) & set(self.contracts)
+        if dup:
+            raise EngineDefect('contract defined twice: %s' % sorted(dup))
         self.contracts.update(c)
         self.classes.update(k)
         self.lemmas.update(g)
@@ -1997,6 +2000,15 @@ SPEC_FUNCS = {
     'kdiff': (['kset', 'kset'], 'kset', lambda th: th.ks_diff),
     'kinter': (['kset', 'kset'], 'kset', lambda th: th.ks_inter),
     'same_type': (['V', 'V'], 'bool', lambda th: th.same_type),
+    'is_list': (['V'], 'bool', lambda th: th.is_list),
+    'is_dict': (['V'], 'bool', lambda th: th.is_dict),
+    'is_str': (['V'], 'bool', lambda th: th.is_str),
+    'as_list': (['V'], ('seq', 'V'), lambda th: th.as_list),
+    'of_list': ([('seq', 'V')], 'V', lambda th: th.of_list),
+    'diffable': (['V', 'V'], 'bool', lambda th: th.diffable),
+    'pred_typed': (['fn', 'path'], 'bool', lambda th: th.pred_typed),
+    'any_cmp': ([('seq', 'fn'), 'V', 'V'], 'bool', lambda th: th.any_cmp),
+    'preds_diffable': ([('seq', 'fn')], 'bool', lambda th: th.preds_diffable),
     'has_preds': (['path'], 'bool', lambda th: th.has_preds),
     'path_norm': (['path'], 'path', lambda th: th.path_norm),
     'path_key': (['path', 'str'], 'path', lambda th: th.path_key),
@@ -2011,6 +2023,7 @@ SPEC_FUNCS = {
     'gap_eq': ([('seq', 'V'), ('seq', 'V'), 'int', 'int', 'int'], 'bool', lambda th: th.gap_eq),
     'good_differ': (['fn'], 'bool', lambda th: th.good_differ),
     'differs_ok': ([], 'bool', lambda th: (lambda: th.differs_ok)),
+    'atomic_ok': ([], 'bool', lambda th: (lambda: th.atomic_ok)),
     'pred_exact': (['fn', 'path'], 'bool', lambda th: th.pred_exact),
     'preds_at': (['path'], ('seq', 'fn'), lambda th: th.preds_at),
     'differs_at': (['path'], 'fn', lambda th: th.differs_at),
